@@ -175,7 +175,7 @@ def _ind_case(rng, size, spec, programs=False, mgr=True):
     step = None
     if tf is not None:
         step = max(1, gen.tf_seconds(tf) // rng.choice([1, 2, 3, 5]))
-    stream, meta = gen.gen_stream(rng, n, step=step)
+    stream, meta = gen.gen_stream(rng, n, price_style=gen.style_for(rng, spec["kind"]), step=step)
     if mgr and rng.random() < 0.1 and n:
         span = (step or 60) * rng.randint(3, 40)
         spec = dict(spec, life=span)
